@@ -577,6 +577,8 @@ class Evaluator:
     def _assign(self, t: ast.AST, val: Any, env: Dict[str, Any], fn: FuncInfo, depth: int):
         if isinstance(t, ast.Name):
             env[t.id] = val
+        elif isinstance(t, ast.Starred):
+            self._assign(t.value, val, env, fn, depth)
         elif isinstance(t, (ast.Tuple, ast.List)) and isinstance(val, TAlt) and isinstance(val.b, TRaise):
             self._assign(t, val.a, env, fn, depth)          # the other alternative does not come back
         elif isinstance(t, (ast.Tuple, ast.List)) and isinstance(val, TAlt) and isinstance(val.a, TRaise):
@@ -590,6 +592,16 @@ class Evaluator:
             # unpacking a conditional pair: each target is the conditional of the corresponding elements
             for i, e in enumerate(t.elts):
                 self._assign(e, self._alt(val.cond, val.a.items[i], val.b.items[i]), env, fn, depth)
+        elif isinstance(t, (ast.Tuple, ast.List)) and sum(isinstance(e_, ast.Starred) for e_ in t.elts) == 1 and \
+                isinstance(val, TList) and not any(isinstance(y, (RepL, AltL)) for y in val.items) and len(val.items) >= len(t.elts) - 1:
+            # `first, *rest = xs` / `*init, last = xs` over a list of known length
+            k = next(i for i, e_ in enumerate(t.elts) if isinstance(e_, ast.Starred))
+            after = len(t.elts) - k - 1
+            for i, e_ in enumerate(t.elts[:k]):
+                self._assign(e_, val.items[i], env, fn, depth)
+            self._assign(t.elts[k].value, TList(list(val.items[k:len(val.items) - after])), env, fn, depth)
+            for j, e_ in enumerate(t.elts[k + 1:]):
+                self._assign(e_, val.items[len(val.items) - after + j], env, fn, depth)
         elif isinstance(t, (ast.Tuple, ast.List)):
             items = val.items if isinstance(val, TList) else None
             for i, e in enumerate(t.elts):
@@ -997,7 +1009,9 @@ class Evaluator:
                     ctxfn = next(iter(c.methods.values()), None) or next(iter(c.module.functions.values()), None)
                     if ctxfn is None:
                         return None
-                    return self.eval(st.value, {}, ctxfn, depth + 1)
+                    # the class body is a scope of its own: its functions are plain names there
+                    scope = {nm: TFunc(m_, {}) for nm, m_ in c.methods.items()}
+                    return self.eval(st.value, scope, ctxfn, depth + 1)
         return None
 
     def from_symbol(self, sym: Any, name: str, fn: FuncInfo) -> Any:
@@ -1046,6 +1060,10 @@ class Evaluator:
                 if cls.is_enum and attr == 'value':
                     return base.attr('value', ('str',))
                 ft = prog.field_type(cls, attr)
+                if ft is None and attr not in prog.class_fields(cls):
+                    cv = self.class_attribute(cls, attr, depth)     # a class-level constant (dispatch table ...)
+                    if cv is not None:
+                        return cv
                 return base.attr(attr, ft if ft is not None else ANY)
             return base.attr(attr, ANY)
         if isinstance(base, TObj):
